@@ -1,8 +1,9 @@
 (** The invariant [J] under which reads return the latest acknowledged write
-    ([get_latest]) holds initially and is preserved by writes that are at
-    least as recent as every earlier write of their key, by memtable rotation,
-    by flushes and by reopen; hence last-writer-wins / newest-version reads for
-    every history of such operations ([lww_memtables_l0], [lww_reopen]). *)
+    ([get_latest]) holds initially and is preserved by every write (any version
+    order; only a fresh larger acknowledgement index is needed, which is ghost
+    state), by memtable rotation, by flushes and by reopen; hence
+    last-writer-wins / newest-version reads for every history of such
+    operations ([lww_memtables_l0], [lww_reopen]). *)
 From Coq Require Import String List NArith Bool Lia Sorting.Sorted.
 From NoKV Require Import Base.Bytes Model.Lsm Spec.MvccSpec Proofs.LsmOrder Spec.LsmSpec
      Proofs.LsmRead Proofs.LsmGet Proofs.LsmMain Proofs.LsmWitness Proofs.LsmInv.
@@ -30,11 +31,17 @@ Definition shards_sorted (s : state) : Prop :=
 
 Record J (s : state) (ws : list rec) : Prop := {
   j_src : src_inv s;
-  j_tier : tier_inv (tiers_of s);
+  j_tier : scan_inv (scan_srcs s);
   j_content : content_ok s ws;
   j_seq : seq_functional ws;
   j_ids : ids_inv s;
   j_shards : shards_sorted s }.
+
+(** The stronger tiered invariant of the old read path still suffices. *)
+Corollary get_latest_tiers s ws k v :
+  src_inv s -> tier_inv (tiers_of s) -> content_ok s ws -> seq_functional ws ->
+  get s k v = latest_at ws k v.
+Proof. intros Hs Ht. apply get_latest; [exact Hs | now apply tier_inv_scan_inv]. Qed.
 
 Theorem J_get_latest s ws k v : J s ws -> get s k v = latest_at ws k v.
 Proof. intros [H1 H2 H3 H4 _ _]. now apply get_latest. Qed.
@@ -84,6 +91,20 @@ Qed.
 Lemma concat_single {A} (l : list A) : concat [l] = l.
 Proof. cbn. apply app_nil_r. Qed.
 
+Definition rest_srcs (s : state) : list (list rec) := concat (rest_tiers s).
+
+Lemma scan_srcs_cons s : scan_srcs s = st_mem s :: rest_srcs s.
+Proof. reflexivity. Qed.
+
+Lemma scan_srcs_put s r : scan_srcs (put s r) = mem_insert r (st_mem s) :: rest_srcs s.
+Proof. reflexivity. Qed.
+
+Lemma scan_srcs_rotate s : scan_srcs (rotate s) = [] :: scan_srcs s.
+Proof. unfold scan_srcs. now rewrite tiers_of_rotate. Qed.
+
+Lemma all_recs_scan s : all_recs (tiers_of s) = concat (scan_srcs s).
+Proof. reflexivity. Qed.
+
 (** * Initial state *)
 Lemma empty_level_srcs : concat (level_srcs empty_level) = [].
 Proof. reflexivity. Qed.
@@ -118,7 +139,7 @@ Theorem J_init m : J (init m) [].
 Proof.
   constructor.
   - apply src_inv_init.
-  - apply tier_inv_init.
+  - apply (tier_inv_scan_inv _ (tier_inv_init m)).
   - split; [rewrite init_all_recs; intros x [] | intros w []].
   - intros x y [].
   - constructor; cbn [init st_l0 st_imms st_memid st_maxfid];
@@ -134,13 +155,14 @@ Proof.
   intros [H|H]; [|auto]. apply mem_insert_in in H. tauto.
 Qed.
 
-(** The content part of a write needs only [content_ok] and recency of the
-    new record among the earlier writes of its key. *)
+(** The content part of a write needs only [content_ok] and a fresh larger
+    acknowledgement index (an equal internal key is overwritten by a more
+    recent copy). *)
 Lemma put_content_ok_gen s ws r :
-  content_ok s ws -> (forall y, In y ws -> r_key y = r_key r -> geq r y) ->
+  content_ok s ws -> (forall y, In y ws -> r_seq y < r_seq r) ->
   content_ok (put s r) (ws ++ [r]).
 Proof.
-  intros [Hc1 Hc2] Hrecent. split.
+  intros [Hc1 Hc2] Hfresh. split.
   - intros x Hx. apply in_or_app. apply put_recs in Hx as [->|Hx]; [right; now left | left; auto].
   - intros w Hw. apply in_app_or in Hw as [Hw|[<-|[]]].
     + destruct (Hc2 w Hw) as (x & Hx & Ek & Ev & Hg).
@@ -149,7 +171,8 @@ Proof.
       * destruct (rcmp r x) eqn:E.
         -- apply rcmp_eq in E as [Ek' Ev']. exists r. split.
            ++ rewrite all_recs_cons_eq, concat_single. apply in_or_app. left. apply mem_insert_has.
-           ++ split; [congruence|]. split; [congruence|]. apply Hrecent; [exact Hw | congruence].
+           ++ split; [congruence|]. split; [congruence|]. right. split; [congruence|].
+              specialize (Hfresh w Hw). lia.
         -- exists x. split; [|auto]. rewrite all_recs_cons_eq, concat_single. apply in_or_app. left.
            apply mem_insert_keeps; [exact Hx | congruence].
         -- exists x. split; [|auto]. rewrite all_recs_cons_eq, concat_single. apply in_or_app. left.
@@ -175,7 +198,6 @@ Section Put.
   Hypothesis HJ : J s ws.
   Hypothesis Hpos : 0 < r_ver r.
   Hypothesis Hfresh : forall y, In y ws -> r_seq y < r_seq r.
-  Hypothesis Hrecent : forall y, In y ws -> r_key y = r_key r -> geq r y.
 
   Lemma put_src_inv : src_inv (put s r).
   Proof.
@@ -184,20 +206,20 @@ Section Put.
     - intros x Hx. apply put_recs in Hx as [->|Hx]; auto.
   Qed.
 
-  Lemma put_tier_inv : tier_inv (tiers_of (put s r)).
+  Lemma put_scan_inv : scan_inv (scan_srcs (put s r)).
   Proof.
-    destruct HJ as [Hsrc Ht [Hc1 _] _ _ _]. rewrite tiers_of_put. rewrite tiers_of_eq in Ht, Hc1.
-    apply tier_inv_cons in Ht as ((Hs & Hp & _) & Hg & Hr). apply tier_inv_cons.
-    rewrite concat_single in *. split; [|split; [|exact Hr]].
-    - apply tier_ok_single.
-      + apply mem_insert_sorted. now inversion Hs.
-      + intros x Hx. apply mem_insert_in in Hx as [->|Hx]; auto.
-    - intros x y Hx Hy Hk. apply mem_insert_in in Hx as [->|Hx]; [|now apply Hg].
-      apply Hrecent; [|now symmetry]. apply Hc1. rewrite all_recs_cons_eq. apply in_or_app. now right.
+    destruct HJ as [Hsrc Ht [Hc1 _] _ _ _]. rewrite scan_srcs_put. rewrite scan_srcs_cons in Ht.
+    rewrite all_recs_scan, scan_srcs_cons in Hc1. cbn [concat] in Hc1.
+    apply scan_inv_cons in Ht as ((Hs & Hp) & Hb & Hr). apply scan_inv_cons.
+    split; [split|split; [|exact Hr]].
+    - now apply mem_insert_sorted.
+    - intros x Hx. apply mem_insert_in in Hx as [->|Hx]; auto.
+    - intros x y Hx Hy Hk Hv. apply mem_insert_in in Hx as [->|Hx]; [|now apply Hb].
+      assert (Hw : In y ws) by (apply Hc1, in_or_app; now right). specialize (Hfresh y Hw). lia.
   Qed.
 
   Lemma put_content_ok : content_ok (put s r) (ws ++ [r]).
-  Proof. apply put_content_ok_gen; [exact (j_content _ _ HJ) | exact Hrecent]. Qed.
+  Proof. apply put_content_ok_gen; [exact (j_content _ _ HJ) | exact Hfresh]. Qed.
 
   Lemma put_seq_functional : seq_functional (ws ++ [r]).
   Proof. apply seq_functional_snoc; [exact (j_seq _ _ HJ) | exact Hfresh]. Qed.
@@ -206,7 +228,7 @@ Section Put.
   Proof.
     constructor.
     - apply put_src_inv.
-    - apply put_tier_inv.
+    - apply put_scan_inv.
     - apply put_content_ok.
     - apply put_seq_functional.
     - destruct HJ as [_ _ _ _ [H1 H2 H3 H4 H5 H6] _]. constructor; assumption.
@@ -229,7 +251,8 @@ Proof.
     + constructor.
     + apply Forall_app. split; [exact Hi | now repeat constructor].
     + rewrite all_recs_rotate. exact Hp.
-  - rewrite tiers_of_rotate. apply (tier_inv_insert_empty [] (tiers_of s)). exact Ht.
+  - rewrite scan_srcs_rotate. apply scan_inv_cons. split; [split; [constructor | intros x []]|].
+    split; [apply src_before_nil_l | exact Ht].
   - eapply content_ok_same; [apply all_recs_rotate | exact Hc].
   - exact Hf.
   - constructor; cbn [rotate st_mem st_memid st_imms st_l0 st_lvls st_maxfid].
@@ -281,13 +304,18 @@ Proof.
       rewrite !all_recs_app_eq, !all_recs_cons_eq, concat_app, <- !app_assoc. reflexivity.
 Qed.
 
-Lemma flush_tier_inv s : tier_inv (tiers_of s) -> tier_inv (tiers_of (flush s)).
+Lemma flush_scan_inv s : scan_inv (scan_srcs s) -> scan_inv (scan_srcs (flush s)).
 Proof.
-  destruct (st_imms s) as [|[id recs] rest] eqn:E.
+  unfold scan_srcs. destruct (st_imms s) as [|[id recs] rest] eqn:E.
   - unfold flush. now rewrite E.
   - rewrite (tiers_of_flush_split s id recs rest E). destruct recs as [|x recs].
-    + rewrite (tiers_of_flush_empty s id rest E). apply tier_inv_drop.
-    + rewrite (tiers_of_flush_nonempty s id x recs rest E). apply tier_inv_merge.
+    + rewrite (tiers_of_flush_empty s id rest E).
+      set (P := [[st_mem s]] ++ map (fun m => [snd m]) (rev rest)).
+      rewrite !(concat_app P).
+      exact (tier_ok_drop_src (concat P) [] (map t_recs (rev (st_l0 s)) ++ concat (map level_srcs (st_lvls s)))).
+    + rewrite (tiers_of_flush_nonempty s id x recs rest E).
+      set (P := [[st_mem s]] ++ map (fun m => [snd m]) (rev rest)).
+      rewrite !(concat_app P). cbn [concat]. now rewrite <- !app_assoc.
 Qed.
 
 Lemma flush_nil s : st_imms s = [] -> flush s = s.
@@ -319,7 +347,7 @@ Proof.
       rewrite (flush_cons s id recs rest E); cbn [st_mem st_imms st_l0 st_lvls]; try assumption.
     unfold flush_l0. destruct recs; [exact Hl|].
     apply Forall_app. split; [exact Hl | constructor; [exact Hr | constructor]].
-  - now apply flush_tier_inv.
+  - now apply flush_scan_inv.
   - eapply content_ok_same; [apply all_recs_flush | exact Hc].
   - exact Hf.
   - rewrite (flush_cons s id recs rest E).
@@ -385,12 +413,12 @@ Proof.
   unfold geqb, geq. rewrite orb_true_iff, andb_true_iff, N.ltb_lt, N.eqb_eq, N.leb_le. tauto.
 Qed.
 
-(** A write is admissible after the history [ws]: positive version, fresh
-    larger acknowledgement index, and at least as recent as every earlier
-    write of its key (equal versions — the plain API — or a larger version). *)
+(** A write is admissible after the history [ws]: positive version and a fresh
+    larger acknowledgement index (ghost state: the index of the write in the
+    history).  Its version may be anything — smaller, equal or larger than
+    the earlier versions of its key. *)
 Definition put_okb (ws : list rec) (r : rec) : bool :=
-  (0 <? r_ver r) &&
-  forallb (fun y => (r_seq y <? r_seq r) && (negb (bytes_eqb (r_key y) (r_key r)) || geqb r y)) ws.
+  (0 <? r_ver r) && forallb (fun y => r_seq y <? r_seq r) ws.
 
 Fixpoint puts_monotone_from (ws : list rec) (ops : list op) : bool :=
   match ops with
@@ -401,15 +429,10 @@ Fixpoint puts_monotone_from (ws : list rec) (ops : list op) : bool :=
 Definition puts_monotone (ops : list op) : bool := puts_monotone_from [] ops.
 
 Lemma put_okb_spec ws r :
-  put_okb ws r = true ->
-  0 < r_ver r /\ (forall y, In y ws -> r_seq y < r_seq r) /\
-  (forall y, In y ws -> r_key y = r_key r -> geq r y).
+  put_okb ws r = true -> 0 < r_ver r /\ (forall y, In y ws -> r_seq y < r_seq r).
 Proof.
   unfold put_okb. rewrite andb_true_iff, N.ltb_lt, forallb_forall. intros [H0 H].
-  split; [exact H0|]. split; intros y Hy; specialize (H y Hy); apply andb_true_iff in H as [H1 H2].
-  - now apply N.ltb_lt.
-  - intro Ek. apply orb_true_iff in H2 as [H2|H2]; [|now apply geqb_spec].
-    apply negb_true_iff, bytes_eqb_neq in H2. contradiction.
+  split; [exact H0|]. intros y Hy. now apply N.ltb_lt, H.
 Qed.
 
 Definition mlf_op (o : op) : bool :=
@@ -429,7 +452,7 @@ Proof.
   - cbn [forallb] in Hk. apply andb_true_iff in Hk as [Ho Hk]. rewrite writes_cons.
     change (run s (o :: ops)) with (run (apply s o) ops).
     destruct o as [r| | | |]; try discriminate; cbn [apply puts_monotone_from] in *.
-    + apply andb_true_iff in Hm as [Hp Hm]. apply put_okb_spec in Hp as (P1 & P2 & P3).
+    + apply andb_true_iff in Hm as [Hp Hm]. apply put_okb_spec in Hp as (P1 & P2).
       rewrite app_assoc. apply IH; [|exact Hk | exact Hm]. now apply put_J.
     + apply IH; [|exact Hk | exact Hm]. now apply rotate_J.
     + apply IH; [|exact Hk | exact Hm]. now apply flush_J.
@@ -463,6 +486,65 @@ Proof.
   intros Hk Hm. eapply reopen_same_reads. apply (run_J ops (init m) [] (J_init m) Hk Hm).
 Qed.
 
+(** The acknowledgement index is ghost state: number the writes of any
+    history in order and the only remaining condition is a positive version.
+    Versions may be written in ANY order. *)
+Definition set_seq (r : rec) (n : N) : rec :=
+  {| r_key := r_key r; r_ver := r_ver r; r_val := r_val r; r_meta := r_meta r; r_exp := r_exp r; r_seq := n |}.
+
+Fixpoint number_from (n : N) (ops : list op) : list op :=
+  match ops with
+  | [] => []
+  | OPut r :: ops' => OPut (set_seq r (n + 1)) :: number_from (n + 1) ops'
+  | o :: ops' => o :: number_from n ops'
+  end.
+Definition number (ops : list op) : list op := number_from 0 ops.
+
+Definition ver_pos (o : op) : bool := match o with OPut r => 0 <? r_ver r | _ => true end.
+
+Lemma number_from_monotone ops : forall n ws,
+  forallb ver_pos ops = true -> (forall y, In y ws -> r_seq y <= n) ->
+  puts_monotone_from ws (number_from n ops) = true.
+Proof.
+  induction ops as [|o ops IH]; intros n ws Hp Hws; [reflexivity|].
+  cbn [forallb] in Hp. apply andb_true_iff in Hp as [Ho Hp].
+  destruct o as [r| | | |]; cbn [number_from puts_monotone_from]; try (now apply IH).
+  apply andb_true_iff. split.
+  - unfold put_okb. cbn [set_seq r_ver r_seq]. apply andb_true_iff. split; [exact Ho|].
+    apply forallb_forall. intros y Hy. apply N.ltb_lt. specialize (Hws y Hy). lia.
+  - apply IH; [exact Hp|]. intros y Hy. apply in_app_or in Hy as [Hy|[<-|[]]].
+    + specialize (Hws y Hy). lia.
+    + cbn [set_seq r_seq]. lia.
+Qed.
+
+Lemma number_from_kind f ops :
+  (forall r r', f (OPut r) = f (OPut r')) -> forall n, forallb f (number_from n ops) = forallb f ops.
+Proof.
+  intro Hf. induction ops as [|o ops IH]; intro n; [reflexivity|].
+  destruct o; cbn [number_from forallb]; rewrite IH; try reflexivity. now rewrite (Hf _ r).
+Qed.
+
+Theorem reads_any_version_order m ops :
+  forallb mlfr_op ops = true -> forallb ver_pos ops = true ->
+  forall k v, get (run (init m) (number ops)) k v = latest_at (writes (number ops)) k v.
+Proof.
+  intros Hk Hp. apply lww_reopen.
+  - unfold number. rewrite number_from_kind; [exact Hk | reflexivity].
+  - apply number_from_monotone; [exact Hp | intros y []].
+Qed.
+
+(** Out-of-order versions: the newer version sits in L0 under an older one in
+    the memtable, and below both in a sealed memtable. *)
+Definition any_order_example : list op :=
+  [OPut (mk "a" 7 "a7" 0); ORotate; OFlush; OPut (mk "a" 5 "a5" 0); ORotate;
+   OPut (mk "a" 3 "a3" 0); OPut (mk "a" 9 "a9" 0); OReopen; OPut (mk "a" 6 "a6" 0)].
+
+Example any_order_example_ok :
+  forallb mlfr_op any_order_example = true /\ forallb ver_pos any_order_example = true /\
+  map (fun v => option_map r_val (get (run (init 1) (number any_order_example)) (of_string "a") v)) [2; 4; 5; 6; 8; 10]
+  = [None; Some (of_string "a3"); Some (of_string "a5"); Some (of_string "a6"); Some (of_string "a7"); Some (of_string "a9")].
+Proof. vm_compute. repeat split; reflexivity. Qed.
+
 (** The plain API: every write carries the same positive (sentinel) version
     and acknowledgement indices increase — such histories are admissible. *)
 Fixpoint plain_from (c n : N) (ops : list op) : bool :=
@@ -482,9 +564,7 @@ Proof.
   apply andb_true_iff in Hp as [Hp Hp3]. apply andb_true_iff in Hp as [Hp1 Hp2].
   apply N.eqb_eq in Hp1. apply N.ltb_lt in Hp2. apply andb_true_iff. split.
   - unfold put_okb. apply andb_true_iff. split; [apply N.ltb_lt; lia|].
-    apply forallb_forall. intros y Hy. destruct (Hws y Hy) as [Hv Hs].
-    apply andb_true_iff. split; [apply N.ltb_lt; lia|]. apply orb_true_iff. right.
-    apply geqb_spec. right. split; [congruence | lia].
+    apply forallb_forall. intros y Hy. destruct (Hws y Hy) as [Hv Hs]. apply N.ltb_lt. lia.
   - apply (IH (r_seq r)); [|exact Hp3]. intros y Hy. apply in_app_or in Hy as [Hy|[<-|[]]].
     + destruct (Hws y Hy). split; [assumption | lia].
     + split; [exact Hp1 | lia].
